@@ -186,115 +186,123 @@ theorem cdfList_get_last : (cdfList B P n free h)[n]? = some (wrappingPow2 B P) 
   rw [List.getElem?_append_right (by simp)]
   simp
 
-/-- `right.wrapping_sub(left)` is the true width, also when the right end is the wrapped total -/
-theorem wsub_cum (ok : FastOk B P n) (hf : free = 2 ^ P - n) (hm : Mono h n) (h0 : h 0 = 0)
-    {s : Nat} (hs : s < n) :
-    wsub B (if s + 1 < n then cumF P n free h (s + 1) else wrappingPow2 B P) (cumF P n free h s)
-      = cumF P n free h (s + 1) - cumF P n free h s ∧
-    0 < cumF P n free h (s + 1) - cumF P n free h s ∧
-    cumF P n free h (s + 1) - cumF P n free h s < 2 ^ P := by
-  have hPB := two_pow_le ok.hPB
-  have hst := cumF_step ok hf hm hs
-  have hl := cumF_lt_total (h := h) ok hf hs
+/-- width of bin `s` -/
+def widthF (P n free : Nat) (h : Nat → Nat) (s : Nat) : Nat :=
+  cumF P n free h (s + 1) - cumF P n free h s
+
+theorem width_pos (ok : FastOk B P n) (hf : free = 2 ^ P - n) (hm : Mono h n) {s : Nat}
+    (hs : s < n) : 0 < widthF P n free h s := by
+  have := cumF_step ok hf hm hs
+  unfold widthF; omega
+
+/-- no bin has probability one (there are at least two non-empty bins) -/
+theorem width_lt (ok : FastOk B P n) (hf : free = 2 ^ P - n) (hm : Mono h n) {s : Nat}
+    (hs : s < n) : widthF P n free h s < 2 ^ P := by
   have hn2 := ok.hn2
-  have hlt : cumF P n free h (s + 1) - cumF P n free h s < 2 ^ P := by
-    rcases Nat.eq_zero_or_pos s with h00 | hpos
-    · subst h00
-      have := cumF_lt_total (h := h) ok hf (i := 1) (by omega)
-      simp only [Nat.zero_add] at *
-      omega
-    · have := cumF_strict ok hf hm (i := 0) (j := s) hpos (by omega)
-      have : cumF P n free h (s + 1) ≤ 2 ^ P := by
-        rcases Nat.lt_or_ge (s + 1) n with h1 | h1
-        · have := cumF_lt_total (h := h) ok hf h1; omega
-        · have : s + 1 = n := by omega
-          rw [this, cumF_last]; exact Nat.le_refl _
-      omega
-  refine ⟨?_, by omega, hlt⟩
-  by_cases h1 : s + 1 < n
-  · rw [if_pos h1]
-    have := cumF_lt_total (h := h) ok hf h1
-    unfold wsub
-    rw [Nat.mod_eq_of_lt (a := cumF P n free h s) (by omega)]
-    have : cumF P n free h (s + 1) + 2 ^ B - cumF P n free h s
-        = (cumF P n free h (s + 1) - cumF P n free h s) + 2 ^ B := by omega
+  have hst := cumF_step ok hf hm hs
+  have hle : cumF P n free h (s + 1) ≤ 2 ^ P := by
+    have := cumF_mono ok hf hm (i := s + 1) (j := n) (by omega) (Nat.le_refl _)
+    rw [cumF_last] at this; exact this
+  unfold widthF
+  rcases Nat.eq_zero_or_pos s with h00 | hpos
+  · subst h00
+    have h1 := cumF_lt_total (h := h) ok hf (i := 1) (by omega)
+    have h2 : cumF P n free h (0 + 1) = cumF P n free h 1 := rfl
+    omega
+  · have := cumF_strict ok hf hm (i := 0) (j := s) hpos (by omega)
+    omega
+
+/-- `right.wrapping_sub(left)` is the true width (inner bins) -/
+theorem wsub_inner (ok : FastOk B P n) (hf : free = 2 ^ P - n) (hm : Mono h n) {s : Nat}
+    (h1 : s + 1 < n) :
+    wsub B (cumF P n free h (s + 1)) (cumF P n free h s) = widthF P n free h s := by
+  have hPB := two_pow_le ok.hPB
+  have hst := cumF_step ok hf hm (i := s) (by omega)
+  have hl := cumF_lt_total (h := h) ok hf h1
+  unfold widthF wsub
+  rw [Nat.mod_eq_of_lt (a := cumF P n free h s) (by omega)]
+  have : cumF P n free h (s + 1) + 2 ^ B - cumF P n free h s
+      = (cumF P n free h (s + 1) - cumF P n free h s) + 2 ^ B := by omega
+  rw [this, Nat.add_mod_right, Nat.mod_eq_of_lt (by omega)]
+
+/-- … and when the right end is the (possibly wrapped) total `wrapping_pow2(P)` -/
+theorem wsub_last (ok : FastOk B P n) (hf : free = 2 ^ P - n) (hm : Mono h n) {s : Nat}
+    (h1 : s + 1 = n) :
+    wsub B (wrappingPow2 B P) (cumF P n free h s) = widthF P n free h s := by
+  have hPB := two_pow_le ok.hPB
+  have hn2 := ok.hn2
+  have hl := cumF_lt_total (h := h) ok hf (i := s) (by omega)
+  have hpos : 0 < cumF P n free h s := by
+    have := cumF_strict ok hf hm (i := 0) (j := s) (by omega) (by omega); omega
+  unfold widthF
+  rw [h1, cumF_last]
+  unfold wsub wrappingPow2
+  rw [Nat.mod_eq_of_lt (a := cumF P n free h s) (by omega)]
+  by_cases hP : P ≥ B
+  · have : P = B := by have := ok.hPB; omega
+    subst this
+    rw [if_pos hP, Nat.zero_add, Nat.mod_eq_of_lt (by omega)]
+  · rw [if_neg hP]
+    have : 2 ^ P + 2 ^ B - cumF P n free h s = (2 ^ P - cumF P n free h s) + 2 ^ B := by omega
     rw [this, Nat.add_mod_right, Nat.mod_eq_of_lt (by omega)]
-  · rw [if_neg h1]
-    have hsn : s + 1 = n := by omega
-    have hpos : 0 < cumF P n free h s := by
-      have := cumF_strict ok hf hm (i := 0) (j := s) (by omega) (by omega); omega
-    rw [hsn, cumF_last]
-    unfold wsub wrappingPow2
-    rw [Nat.mod_eq_of_lt (a := cumF P n free h s) (by omega)]
-    by_cases hP : P ≥ B
-    · have : P = B := by have := ok.hPB; omega
-      subst this
-      rw [if_pos hP, Nat.zero_add, Nat.mod_eq_of_lt (by omega)]
-    · rw [if_neg hP]
-      have : 2 ^ P + 2 ^ B - cumF P n free h s = (2 ^ P - cumF P n free h s) + 2 ^ B := by omega
-      rw [this, Nat.add_mod_right, Nat.mod_eq_of_lt (by omega)]
 
 /-- the encoder both models implement -/
 def encF (P n free : Nat) (h : Nat → Nat) (s : Nat) : Option (Nat × Nat) :=
-  if s < n then some (cumF P n free h s, cumF P n free h (s + 1) - cumF P n free h s) else none
+  if s < n then some (cumF P n free h s, widthF P n free h s) else none
 
-theorem eagerEnc_eq (ok : FastOk B P n) (hf : free = 2 ^ P - n) (hm : Mono h n) (h0 : h 0 = 0)
+theorem eagerEnc_eq (ok : FastOk B P n) (hf : free = 2 ^ P - n) (hm : Mono h n)
     (s : Nat) : eagerEnc B (cdfList B P n free h) s = .ok (encF P n free h s) := by
   unfold eagerEnc encF
   rw [cdfList_length]
   by_cases hs : s < n
-  · rw [if_neg (by omega), if_pos hs, cdfList_get_lt hs]
-    have hw := wsub_cum ok hf hm h0 hs
+  · have hp := width_pos ok hf hm hs
+    rw [if_neg (by omega), if_pos hs, cdfList_get_lt hs]
     by_cases h1 : s + 1 < n
     · rw [cdfList_get_lt h1]
-      rw [if_pos h1] at hw
       simp only
-      rw [hw.1, if_neg (by omega)]
-    · have : s + 1 = n := by omega
-      rw [this, cdfList_get_last]
-      rw [if_neg h1] at hw
+      rw [wsub_inner ok hf hm h1, if_neg (by omega)]
+    · have e : s + 1 = n := by omega
+      rw [e, cdfList_get_last]
       simp only
-      rw [hw.1, if_neg (by omega)]
+      rw [wsub_last ok hf hm e, if_neg (by omega)]
   · rw [if_pos (by omega), if_neg hs]
 
 /-! ### lazy model -/
 
-theorem lazyEnc_eq (ok : FastOk B P n) (hf : free = 2 ^ P - n) (hm : Mono h n) (h0 : h 0 = 0)
+theorem cadd_right (ok : FastOk B P n) (hf : free = 2 ^ P - n) {s : Nat} (h1 : s + 1 < n) :
+    cadd "lazy.enc.right" B (min (h (s + 1)) free) (narrow B s)
+      = .ok (min (h (s + 1)) free + s) ∧
+    cadd "lazy.enc.right1" B (min (h (s + 1)) free + s) 1 = .ok (cumF P n free h (s + 1)) := by
+  have hPB := two_pow_le ok.hPB
+  have hl := cumF_lt_total (h := h) ok hf h1
+  rw [narrow_small ok (by omega)]
+  unfold cumF at hl ⊢; rw [if_pos h1] at hl ⊢
+  unfold cadd
+  rw [if_pos (by omega), if_pos (by omega)]
+  exact ⟨rfl, by rw [Nat.add_assoc]⟩
+
+theorem lazyEnc_eq (ok : FastOk B P n) (hf : free = 2 ^ P - n) (hm : Mono h n)
     (s : Nat) : lazyEnc B P n free h s = .ok (encF P n free h s) := by
   unfold lazyEnc encF
   by_cases hs : s < n
-  · rw [if_neg (by omega), if_pos hs, cadd_cum ok hf _ hs]
-    have hw := wsub_cum ok hf hm h0 hs
-    have hPB := two_pow_le ok.hPB
+  · have hp := width_pos ok hf hm hs
+    rw [if_neg (by omega), if_pos hs, cadd_cum ok hf _ hs]
     by_cases h1 : s + 1 < n
     · rw [if_neg (by omega)]
-      have hc := cadd_cum (h := h) ok hf "lazy.enc.right" h1
-      -- `(min (h (s+1)) free + s) + 1`
-      have hl := cumF_lt_total (h := h) ok hf h1
-      have e1 : cadd "lazy.enc.right" B (min (h (s + 1)) free) (narrow B s)
-          = .ok (min (h (s + 1)) free + s) := by
-        rw [narrow_small ok (by omega)]
-        unfold cumF at hl; rw [if_pos h1] at hl
-        unfold cadd; rw [if_pos (by omega)]
-      have e2 : cadd "lazy.enc.right1" B (min (h (s + 1)) free + s) 1
-          = .ok (cumF P n free h (s + 1)) := by
-        unfold cumF at hl ⊢; rw [if_pos h1] at hl ⊢
-        unfold cadd; rw [if_pos (by omega)]
-      rw [e1]; simp only; rw [e2]
-      rw [if_pos h1] at hw
+      have hc := cadd_right (h := h) ok hf h1
+      rw [hc.1]; simp only; rw [hc.2]; simp only
+      rw [wsub_inner ok hf hm h1, if_neg (by omega)]
+    · have e : s + 1 = n := by omega
+      rw [if_pos (by omega)]
       simp only
-      rw [hw.1, if_neg (by omega)]
-    · rw [if_pos (by omega)]
-      rw [if_neg h1] at hw
-      simp only
-      rw [hw.1, if_neg (by omega)]
+      rw [wsub_last ok hf hm e, if_neg (by omega)]
   · rw [if_pos (by omega), if_neg hs]
 
 /-- **C05** eager.enc = lazy.enc: both are `cdf i = min (h i) free + i` over the same `h` -/
 theorem eager_enc_eq_lazy_enc (ok : FastOk B P n) (hf : free = 2 ^ P - n) (hm : Mono h n)
-    (h0 : h 0 = 0) (s : Nat) :
+    (s : Nat) :
     eagerEnc B (cdfList B P n free h) s = lazyEnc B P n free h s := by
-  rw [eagerEnc_eq ok hf hm h0, lazyEnc_eq ok hf hm h0]
+  rw [eagerEnc_eq ok hf hm, lazyEnc_eq ok hf hm]
 
 theorem wsub64_pred {j : Nat} (h1 : 1 ≤ j) (h2 : j < 2 ^ 64) : wsub 64 j 1 = j - 1 := by
   unfold wsub
@@ -303,61 +311,76 @@ theorem wsub64_pred {j : Nat} (h1 : 1 ≤ j) (h2 : j < 2 ^ 64) : wsub 64 j 1 = j
   have : j + 2 ^ 64 - 1 = (j - 1) + 2 ^ 64 := by omega
   rw [this, Nat.add_mod_right, Nat.mod_eq_of_lt (by omega)]
 
+/-- what the decoder must return for `q`: the bin `s` that contains it -/
+def IsBin (P n free : Nat) (h : Nat → Nat) (q s : Nat) : Prop :=
+  s < n ∧ cumF P n free h s ≤ q ∧ q < cumF P n free h (s + 1)
+
 theorem lazyDecLoop_spec (ok : FastOk B P n) (hB : B ≤ 64) (hf : free = 2 ^ P - n)
-    (hm : Mono h n) (h0 : h 0 = 0) {q : Nat} (hq : q < 2 ^ P) :
-    ∀ (fuel j : Nat), 1 ≤ j → j + fuel = n → cumF P n free h (j - 1) ≤ q →
-      ∃ s, s < n ∧ cumF P n free h s ≤ q ∧ q < cumF P n free h (s + 1) ∧
-        lazyDecLoop B P n free h q fuel j (cumF P n free h (j - 1))
-          = .ok (s, cumF P n free h s, cumF P n free h (s + 1) - cumF P n free h s) := by
+    (hm : Mono h n) {q : Nat} (hq : q < 2 ^ P) :
+    ∀ (fuel j : Nat), j + 1 + fuel = n → cumF P n free h j ≤ q →
+      ∃ s, IsBin P n free h q s ∧
+        lazyDecLoop B P n free h q fuel (j + 1) (cumF P n free h j)
+          = .ok (s, cumF P n free h s, widthF P n free h s) := by
   have h64 : (2 : Nat) ^ P ≤ 2 ^ 64 := two_pow_le (by have := ok.hPB; omega)
   have hn := ok.hn
   intro fuel
   induction fuel with
   | zero =>
-    intro j hj1 hjn hle
-    have hj : j = n := by omega
-    subst hj
-    have hs : j - 1 < j := by omega
-    have hw := wsub_cum ok hf hm h0 hs
-    have e : j - 1 + 1 = j := by omega
-    rw [e] at hw
-    rw [if_neg (by omega)] at hw
-    refine ⟨j - 1, hs, hle, by rw [e, cumF_last]; exact hq, ?_⟩
-    unfold lazyDecLoop
-    simp only
-    rw [hw.1, if_neg (by omega), wsub64_pred hj1 (by omega), e]
+    intro j hjn hle
+    have hjs : j < n := by omega
+    have hp := width_pos ok hf hm hjs
+    refine ⟨j, ⟨hjs, hle, ?_⟩, ?_⟩
+    · have e : j + 1 = n := by omega
+      rw [e, cumF_last]; exact hq
+    · unfold lazyDecLoop
+      simp only
+      rw [wsub_last ok hf hm (by omega), if_neg (by omega), wsub64_pred (by omega) (by omega)]
+      rfl
   | succ fuel ih =>
-    intro j hj1 hjn hle
-    have hjlt : j < n := by omega
+    intro j hjn hle
+    have hjs : j < n := by omega
+    have hj1 : j + 1 < n := by omega
+    have hp := width_pos ok hf hm hjs
     unfold lazyDecLoop
-    rw [cadd_cum ok hf _ hjlt]
+    rw [cadd_cum ok hf _ hj1]
     simp only
-    by_cases hgt : cumF P n free h j > q
+    by_cases hgt : cumF P n free h (j + 1) > q
     · rw [if_pos hgt]
-      have hs : j - 1 < n := by omega
-      have hw := wsub_cum ok hf hm h0 hs
-      have e : j - 1 + 1 = j := by omega
-      rw [e] at hw
-      rw [if_pos hjlt] at hw
-      refine ⟨j - 1, hs, hle, by rw [e]; exact hgt, ?_⟩
-      rw [hw.1, if_neg (by omega), wsub64_pred hj1 (by omega), e]
+      refine ⟨j, ⟨hjs, hle, hgt⟩, ?_⟩
+      rw [wsub_inner ok hf hm hj1, if_neg (by omega), wsub64_pred (by omega) (by omega)]
+      rfl
     · rw [if_neg hgt]
-      have := ih (j + 1) (by omega) (by omega) (by simpa using Nat.le_of_not_gt hgt)
-      simpa using this
+      exact ih (j + 1) (by omega) (Nat.le_of_not_gt hgt)
 
 /-- the lazy decoder returns the bin of `q` for every admissible skip count `k0`;
     TB-F2 (soundness of the float-only skip phase) is exactly `cumF (k0 - 1) ≤ q` -/
 theorem lazyDec_spec (ok : FastOk B P n) (hB : B ≤ 64) (hf : free = 2 ^ P - n)
-    (hm : Mono h n) (h0 : h 0 = 0) {q k0 : Nat} (hq : q < 2 ^ P)
+    (hm : Mono h n) {q k0 : Nat} (hq : q < 2 ^ P)
     (hk1 : 1 ≤ k0) (hkn : k0 ≤ n) (tbf2 : cumF P n free h (k0 - 1) ≤ q) :
-    ∃ s, s < n ∧ cumF P n free h s ≤ q ∧ q < cumF P n free h (s + 1) ∧
-      lazyDec B P n free h k0 q
-        = .ok (s, cumF P n free h s, cumF P n free h (s + 1) - cumF P n free h s) := by
+    ∃ s, IsBin P n free h q s ∧
+      lazyDec B P n free h k0 q = .ok (s, cumF P n free h s, widthF P n free h s) := by
   have h64 : (2 : Nat) ^ P ≤ 2 ^ 64 := two_pow_le (by have := ok.hPB; omega)
   have hn := ok.hn
+  obtain ⟨j, rfl⟩ : ∃ j, k0 = j + 1 := ⟨k0 - 1, by omega⟩
+  have e : j + 1 - 1 = j := by omega
+  rw [e] at tbf2
   unfold lazyDec
-  rw [wsub64_pred hk1 (by omega), cadd_cum ok hf _ (by omega)]
-  exact lazyDecLoop_spec ok hB hf hm h0 hq (n - k0) k0 hk1 (by omega) tbf2
+  rw [wsub64_pred hk1 (by omega), e, cadd_cum ok hf _ (by omega)]
+  exact lazyDecLoop_spec ok hB hf hm hq (n - (j + 1)) j (by omega) tbf2
+
+/-- bins are unique, so `lazyDec` is a function of `q` alone: the hint-like `k0` only saves work -/
+theorem IsBin.unique (ok : FastOk B P n) (hf : free = 2 ^ P - n) (hm : Mono h n) {q s t : Nat}
+    (hs : IsBin P n free h q s) (ht : IsBin P n free h q t) : s = t :=
+  bin_unique ok hf hm hs.1 ht.1 hs.2.1 hs.2.2 ht.2.1 ht.2.2
+
+/-- every quantile below `2^P` has a bin -/
+theorem IsBin.exists (ok : FastOk B P n) (hB : B ≤ 64) (hf : free = 2 ^ P - n) (hm : Mono h n)
+    (h0 : h 0 = 0) {q : Nat} (hq : q < 2 ^ P) : ∃ s, IsBin P n free h q s := by
+  have hn2 := ok.hn2
+  have := lazyDec_spec ok hB hf hm (k0 := 1) hq (by omega) (by omega)
+    (by rw [cumF_zero ok h0]; omega)
+  obtain ⟨s, hs, _⟩ := this
+  exact ⟨s, hs⟩
 
 end
 
